@@ -90,6 +90,12 @@ for _k in ("C01", "C02", "C03", "C04", "C07", "C08", "C09", "C10", "C11", "C12",
     _ALL[_k]["technique"] += "; judged calls are preceded now and then by rejected calls on the library's error paths"
 _ALL["C05"]["level"] += "; parent / children calls are also issued on accepted stray-bit spellings of cells (canonical-form filter on what they return)"
 _ALL["C09"]["level"] += "; one list in five contains family runs (children of one cell in order, swapped, shuffled, with repeats, all equal, with a stranger)"
+_ALL["C06"]["level"] += "; two accepted non-canonical spellings of every recorded id of resolution >= 2 must have the reference centre"
+_ALL["C08"]["level"] += "; cell sets include the sparse border family (k lone cells + one complete group, k around 16 ... 8192)"
+_ALL["C10"]["level"] += "; cell sets include the sparse border family (k lone cells + one complete group, k around 16 ... 8192)"
+_ALL["C09"]["level"] += "; one judged list in six is issued again with accepted non-canonical spellings and must give the same output"
+_ALL["C18"]["level"] += "; a quarter of the points is also judged with theta wound by 1e2..9e8 whole turns (ties: 1e-9 + two ulps of the wound angle)"
+_ALL["C20"]["level"] += "; default-target parents of a quarter of the pairs are compared too, the smaller cell in an accepted non-canonical spelling"
 _ALL["C14"]["level"] += "; an Ok answer of a single-cell call for a word whose face / quintant field denotes no cell is a violation"
 _ALL["C15"]["level"] += "; points of every face (half of them on a triangle seam) are also presented with theta wound by 1e2..9e8 whole turns and judged against the direction of the wound coordinates"
 _ALL["C16"]["level"] += "; a cell_reach stage measures the Jacobian on the planar outlines of real edge- and vertex-straddling cells (library's get_pentagon) and counts outline points outside the assumed margin (none observed)"
